@@ -98,6 +98,6 @@ MANIFEST = {
     "note": "Kernel-checked theorems are about the model; the tie is seeded differential execution (stream proto, profile "
             "cms). Cryptography is symbolic; which key a CMS validates under is determined with rpki-rs inside the harness. "
             "A corrupted message may be accepted only if it still decodes to the identical message and still validates.",
-    "technique": "Lean 4 proof (decision logic under symbolic crypto, parametric in the decoder) + source translator (bodies of CaManager::rfc6492 and CertAuth::verify_rfc6492 = the model's rfc6492: gen_rfc6492_eq_model) + lock-step correspondence "
+    "technique": "Lean 4 proof (decision logic under symbolic crypto, parametric in the decoder) + source translator (bodies of CaManager::rfc6492 and CertAuth::verify_rfc6492 = the model's rfc6492: gen_rfc6492_eq_model; body of RepositoryManager::rfc8181 = the model's rfc8181: gen_rfc8181_eq_model) + lock-step correspondence "
                  "with real CMS objects + oracle on observed state",
 }
